@@ -115,6 +115,12 @@ def _images(ctx):
                'number_of_frames_attr': not drop_nof, 'junk_above_bits_stored': junk}, ds, fr
 
 
+def _preaccessed(hd, pydicom, blob):
+    ds0 = pydicom.dcmread(io.BytesIO(blob))
+    ds0.pixel_array
+    return hd.Image.from_dataset(ds0, copy=False)
+
+
 class _FsPath:
     """an os.PathLike that is neither str nor pathlib.Path"""
 
@@ -197,6 +203,8 @@ def _check_image(ctx, d, ds, fr, reqs, pending):
         'memory': lambda: hd.Image.from_dataset(pydicom.dcmread(io.BytesIO(blob)), copy=False),
         # the default of from_dataset: the image is a deep copy of the dataset it was given
         'memory-copy': lambda: hd.Image.from_dataset(pydicom.dcmread(io.BytesIO(blob))),
+        # a dataset whose pixel array the caller has ALREADY decoded with pydicom: the image starts its life with a cached array
+        'memory-preaccessed': lambda: _preaccessed(hd, pydicom, blob),
         'eager': lambda: hd.imread(io.BytesIO(blob)),
         'lazy': lambda: hd.imread(io.BytesIO(blob), lazy_frame_retrieval=True),
     }
@@ -256,6 +264,16 @@ def _check_image(ctx, d, ds, fr, reqs, pending):
                 else:
                     if st == 'ok':
                         ctx.fail(case, 'out-of-range frame number accepted (wrapped?)', site=f'get_stored_frame/{name}')
+                # ---- the same number through the BATCH method (a batch of one), in whatever state the object is in
+                stb, valb = _fetch(lambda: im.get_stored_frames([kk], as_indices=as_index)[0])
+                ctx.case(path=name + '/batch-of-one', inrange=inrange)
+                if inrange:
+                    if stb != 'ok' or not np.array_equal(np.asarray(valb).astype(np.int64), ref[idx].astype(np.int64)):
+                        ctx.fail(dict(case, call='get_stored_frames([k])'), 'batch of one differs from pydicom' if stb == 'ok' else f'refused: {valb}',
+                                 site=f'get_stored_frames/{name}')
+                elif stb == 'ok':
+                    ctx.fail(dict(case, call='get_stored_frames([k])'), 'out-of-range frame number accepted by the batch method (wrapped?)',
+                             site=f'get_stored_frames/{name}')
                 if inrange and (as_index or d['idx'] % 2 == 0):
                     # ---- the stored frame through get_frame / get_frames with EVERY transform switched off: the frame loop of
                     # get_frames fetches the raw bytes itself (skeleton T1c)
@@ -568,6 +586,8 @@ def _check_image(ctx, d, ds, fr, reqs, pending):
             rr = ctx.rng('shared-file', d['idx'])
             for _ in range(min(2 * n + 2, 10)):
                 who, k = rr.choice(['a', 'b']), rr.randint(1, n)
+                if rr.random() < 0.4:
+                    shared.seek(rr.randrange(len(blob) + 1))          # the caller uses its file object in between
                 obj = ia if who == 'a' else ib
                 how = rr.choice(['single', 'batch', 'raw'])
                 if how == 'single':
@@ -588,7 +608,8 @@ def _check_image(ctx, d, ds, fr, reqs, pending):
         else:
             ctx.fail({'image': d, 'path': 'shared-file'}, f'could not open two images on one file object: {ia if sta != "ok" else ib}', site='open/shared-file')
     # raw reader API
-    st, rd = _fetch(hd.io.ImageFileReader, DicomBytesIO(blob))
+    own_file = DicomBytesIO(blob)
+    st, rd = _fetch(hd.io.ImageFileReader, own_file)
     if st == 'ok':
         with rd:
             rs = ctx.rng('reader-spelling', d['idx'])
@@ -615,6 +636,8 @@ def _check_image(ctx, d, ds, fr, reqs, pending):
             order = [ro.randrange(-1, n + 1) for _ in range(min(2 * n + 2, 14))]
             for i in order:
                 ii, _sp = _spell(ro, i)
+                if ro.random() < 0.3:
+                    own_file.seek(ro.randrange(len(blob) + 1))        # the caller moves its own file object between two reads
                 st2, val = _fetch(rd.read_frame, ii, correct_color=False)
                 ctx.case(path='reader/any-order', inrange=0 <= i < n, number_given_as=_sp)
                 if 0 <= i < n and (st2 != 'ok' or not np.array_equal(np.asarray(val).astype(np.int64), ref[i].astype(np.int64))):
@@ -1354,6 +1377,81 @@ def _float_pixel_maps(ctx):
                                      site=what + '/float-pixels')
 
 
+def _twins(ctx):
+    """TWO images alive in one process that differ in exactly ONE description parameter (signedness, BitsStored, planar
+    configuration, rows <-> columns, photometric interpretation RGB / YBR_FULL) and otherwise agree - same bytes where the
+    parameter allows - with their frames fetched alternately through every un-cached path: whatever one object's decoding leaves
+    behind (memoised descriptions, cached decoders, remembered parameters) must not leak into the other.  Oracle: each fetch equals
+    pydicom's decode of ITS OWN dataset."""
+    import highdicom as hd
+    import pydicom
+    from pydicom.filebase import DicomBytesIO
+    from pydicom.uid import ExplicitVRLittleEndian
+    from gen.images import multiframe_image, to_bytes
+    for idx in range(ctx.n(20, 240)):
+        r = ctx.rng('twins', idx)
+        nr = ctx.np_rng('twins', idx)
+        what = ['signedness', 'bits_stored', 'planar', 'transposed', 'photometric'][idx % 5]
+        n, rows, cols = r.choice([1, 2, 3]), r.randint(1, 4), r.randint(2, 5)
+        bits = r.choice([8, 16]) if what not in ('planar', 'photometric') else 8
+        colour = what in ('planar', 'photometric')
+        shape = (n, rows, cols) + ((3,) if colour else ())
+        fr = nr.integers(0, 2 ** bits, size=shape, dtype=np.int64)
+        dsa = multiframe_image(fr, bits, ExplicitVRLittleEndian)
+        dsb = pydicom.dcmread(io.BytesIO(to_bytes(dsa)))
+        if what == 'signedness':
+            dsb.PixelRepresentation = 1
+        elif what == 'bits_stored':
+            dsb.BitsStored, dsb.HighBit = bits - 3, bits - 4
+        elif what == 'planar':
+            dsb.PlanarConfiguration = 1
+        elif what == 'transposed':
+            if rows == cols:
+                continue
+            dsb.Rows, dsb.Columns = cols, rows
+        else:
+            dsb.PhotometricInterpretation = 'YBR_FULL'
+        blobs = [to_bytes(dsa), to_bytes(dsb)]
+        try:
+            refs = [pydicom.dcmread(io.BytesIO(b)).pixel_array for b in blobs]
+        except Exception as e:  # noqa: BLE001
+            ctx.note(f'twins: pydicom cannot decode the {what} twin: {type(e).__name__}')
+            continue
+        refs = [x.reshape((n,) + x.shape[(0 if n == 1 else 1):]) for x in refs]
+        d = {'idx': idx, 'differs_in': what, 'frames': n, 'rows': rows, 'cols': cols, 'bits': bits}
+        for how in ('memory', 'lazy', 'reader'):
+            objs = []
+            for b in blobs:
+                if how == 'memory':
+                    st, o = _fetch(lambda: hd.Image.from_dataset(pydicom.dcmread(io.BytesIO(b)), copy=False))
+                elif how == 'lazy':
+                    st, o = _fetch(hd.imread, b, lazy_frame_retrieval=True)
+                else:
+                    st, o = _fetch(lambda: hd.io.ImageFileReader(DicomBytesIO(b)).__enter__())
+                objs.append(o if st == 'ok' else None)
+            if any(o is None for o in objs):
+                ctx.fail({'twins': d, 'path': how}, 'could not open a twin image', site='open/twins')
+                continue
+            order = [(w, k) for k in range(n) for w in (0, 1)]
+            r.shuffle(order)
+            for w, k in order + order[:2]:
+                o = objs[w]
+                if how == 'reader':
+                    st, v = _fetch(o.read_frame, k, correct_color=False)
+                elif r.random() < 0.5:
+                    st, v = _fetch(o.get_stored_frame, k + 1)
+                else:
+                    st, v = _fetch(lambda: o.get_stored_frames([k + 1])[0])
+                ctx.case(path=f'twins/{how}', twins_differ_in=what, nontrivial_key=('twins', what, how, idx, w, k))
+                if st != 'ok' or not np.array_equal(np.asarray(v).astype(np.int64), refs[w][k].astype(np.int64)):
+                    ctx.fail({'twins': d, 'path': how, 'which': 'ab'[w], 'frame': k + 1},
+                             f'a frame of one twin is not pydicom\'s decode of ITS dataset (the twins differ in {what}): '
+                             f'{v if st != "ok" else np.asarray(v).reshape(-1)[:4].tolist()}', site=f'twins/{how}')
+            if how == 'reader':
+                for o in objs:
+                    _fetch(o.__exit__, None, None, None)
+
+
 def run(ctx):
     reqs, pending = [], []
     _helpers(ctx, reqs, pending)
@@ -1364,6 +1462,7 @@ def run(ctx):
     _assembled(ctx, reqs, pending)
     _histories(ctx, reqs, pending)
     _float_pixel_maps(ctx)
+    _twins(ctx)
     for d, ds, fr in _images(ctx):
         _check_image(ctx, d, ds, fr, reqs, pending)
     _fixtures(ctx)
@@ -1417,7 +1516,7 @@ def replay(ctx, case):
     def key(c):
         if not isinstance(c, dict):
             return None
-        for k in ('image', 'enc', 'syn', 'bytes', 'assembled', 'history'):
+        for k in ('image', 'enc', 'syn', 'bytes', 'assembled', 'history', 'twins'):
             if k in c and isinstance(c[k], dict):
                 return (k, c[k].get('idx'), c[k].get('colour'), c.get('path', '').split('/')[0])
         if 'fixture' in c:
